@@ -9,7 +9,9 @@ HERE = os.path.dirname(os.path.dirname(os.path.abspath(__file__)))
 CLAIMED = {
     'C14': (
         'Coq proof over an executable model of spectrum_assignment.py (invariant by induction over request '
-        'histories) + step-by-step model/implementation correspondence (vm_compute) + property oracle on observed states',
+        'histories, per-request specification, totality) + step-by-step model/implementation correspondence (vm_compute) '
+        '+ property oracle on observed states + translator tie (six source primitives re-translated to Gallina on every '
+        'run and proved equal to the model)',
         'Theorems in coq/theories/Props/C14.v hold for every request history, OMS set and usable-band layout of the '
         'Gallina model; the model is run against the real pth_assign_spectrum after every request of generated '
         'histories, and the property is re-evaluated on the implementation\'s own before/after bitmaps.',
